@@ -180,8 +180,13 @@ def _inv_val(j: int, i: int, k: int) -> float:
 def run_case(case: Any, pid: str) -> Verdict:
     del pid
     v = Verdict()
-    ninv, script, lag = case["ninv"], case["script"], case["lag"]
-    nterms, nticks = len(ninv), len(script)
+    ninv, lag = case["ninv"], case["lag"]
+    nterms, nticks = len(ninv), len(case["script"])
+    # three more ticks with everything valid are fed after the scripted ones and not judged: an output that the
+    # scripted faults delayed by a tick is flushed instead of looking lost at the end of the run
+    FLUSH = 3
+    script = list(case["script"]) + [[[True] * (1 + ninv[j]) for j in range(nterms)] for _ in range(FLUSH)]
+    nfeed = nticks + FLUSH
     close = case["close"]
     errors = {(j, k) for j, k in case.get("errors", [])}
     fb_errors = {(j, k) for j, k in case.get("fb_errors", [])}
@@ -272,7 +277,7 @@ def run_case(case: Any, pid: str) -> Verdict:
                     value = _inv_val(j, i, k) if row[1 + i] else None
                 await sub["sender"].send(Sample(world.T0 + timedelta(seconds=k), None if value is None else Quantity(value)))
 
-            for k in range(nticks + 3):
+            for k in range(nfeed + 3):
                 await take_subscriptions(k)
                 primaries = [s for s in subs.values() if not s["fallback"]]
                 fallbacks = [s for s in subs.values() if s["fallback"]]
@@ -289,7 +294,7 @@ def run_case(case: Any, pid: str) -> Verdict:
                                 sub["closed"] = True
                                 await registry.get_or_create(Sample[Quantity], sub["name"]).close()
                             continue
-                        while sub["next"] <= min(upto, nticks - 1):
+                        while sub["next"] <= min(upto, nfeed - 1):
                             await send(sub, sub["next"])
                             sub["next"] += 1
                 await world.settle(3)
@@ -330,13 +335,17 @@ def run_case(case: Any, pid: str) -> Verdict:
         blind |= set(range(started[j], fb_from[j]))
         if close is not None and close[0] == j:
             blind |= {close[1], close[1] + 1}
-        for (je, ke) in errors:
-            # a raising primary before the fallback stream delivers drops the round (like a closed stream); when it
-            # raises at the very tick of the first fallback sample, that sample is already buffered and the error
-            # path reads the one after it, so the term runs one tick ahead until the next round re-aligns it:
-            # still start-up (bounded: two ticks after the error), not judged
-            if je == j and ke <= fb_from[j]:
+        # a raising primary before the fallback stream delivers drops the round (like a closed stream); when it
+        # raises at the very tick of the first fallback sample, that sample is already buffered and the error
+        # path reads the one after it, so the term runs one tick ahead until the next round re-aligns it:
+        # still start-up (bounded: two ticks after the error), not judged.  A further error while the term is
+        # still running ahead drops that re-aligning round and postpones it by the same two ticks (during
+        # which the term serves the valid fallback value of the right timestamp), so the windows chain.
+        ahead_until = fb_from[j]
+        for ke in sorted(ke for (je, ke) in errors if je == j):
+            if ke <= ahead_until:
                 blind |= {ke, ke + 1, ke + 2}
+                ahead_until = ke + 2
     for (je, ke) in fb_errors:
         # both sources of a term raise at the same tick (primary closed or raising, fallback raising): the round is
         # dropped and the next one re-synchronises, like for a closed stream without a delivering fallback
@@ -345,8 +354,8 @@ def run_case(case: Any, pid: str) -> Verdict:
     by_tick: dict[int, list[Any]] = {}
     for s in outputs:
         k = (s.timestamp - world.T0).total_seconds()
-        if k != int(k) or not 0 <= k < nticks:
-            v.fail(f"output stamped {s.timestamp} is not one of the {nticks} input timestamps")
+        if k != int(k) or not 0 <= k < nfeed:
+            v.fail(f"output stamped {s.timestamp} is not one of the {nfeed} input timestamps")
             continue
         by_tick.setdefault(int(k), []).append(s)
     order = [int((s.timestamp - world.T0).total_seconds()) for s in outputs]
